@@ -670,8 +670,43 @@ def _concrete(v):
     return False
 
 
+def eq_descend(a, b):
+    """structural equality of two abstract values of one type: ("const", bool) when decided by the shapes alone, ("leaf", x, y)
+    when it comes down to exactly one pair of undecided components (same variants, everything else equal), else ("unknown",)"""
+    if a == b and _concrete(a):
+        return ("const", True)
+    if is_e(a) and is_e(b) and a[1] == b[1]:
+        if a[2] != b[2]:
+            return ("const", False)
+        pend = None
+        for x, y in zip(a[3], b[3]):
+            r = eq_descend(x, y)
+            if r == ("const", True):
+                continue
+            if r == ("const", False):
+                return r
+            if r[0] == "leaf" and pend is None:
+                pend = r
+            else:
+                return ("unknown",)
+        return pend if pend is not None else ("const", True)
+    if a[0] == "c" and b[0] == "c":
+        return ("const", a[1] == b[1])
+    if a == b:
+        return ("leaf", a, b)
+    return ("leaf", a, b)
+
+
 def m_eq(I, fn, st, t, args, depth, neg=False):
     a, b = args[0], args[1]
+    if is_e(a) and is_e(b) and a[1] == b[1] and a[1] in (OPT, RES):
+        r = eq_descend(I.deref_value(st, a), I.deref_value(st, b))
+        if r[0] == "const":
+            yield c(r[1] != neg), None, ()
+            return
+        if r[0] == "leaf":
+            yield ("op", "ne" if neg else "eq", (_short(r[1]), _short(r[2]))), None, ()
+            return
     if _concrete(a) and _concrete(b):
         yield c((a == b) != neg), None, ()
         return
